@@ -164,6 +164,12 @@ func (e *Executor) RunTask(ctx context.Context, call *Call) error {
 		}
 
 		skipFingerprinting := e.ForceAll || (!call.Indirect && e.Force)
+		if skipFingerprinting {
+			// --force only overrides the up-to-date check, not the preconditions
+			if _, err := e.areTaskPreconditionsMet(ctx, t); err != nil {
+				return err
+			}
+		}
 		if !skipFingerprinting {
 			if err := ctx.Err(); err != nil {
 				return err
